@@ -508,7 +508,12 @@ func init() {
 					frag(f.tpl, f.cfg, f.cs, f.validate, rd, 2, "mr", 0)
 					frag(f.tpl, f.cfg, f.cs, f.validate, rd, 2, "mr", 3)
 					if rd >= 2 {
-						js = append(js, &Job{Module: "mcap", Harness: "VC15Seek", Params: P("tpl", f.tpl, "cfg", f.cfg, "cs", f.cs, "ord", rd-2, "slo", 0, "shi", 16), TimeoutS: 900})
+						js = append(js, &Job{Module: "mcap", Harness: "VC15Seek", Params: P("tpl", f.tpl, "cfg", f.cfg, "cs", f.cs, "ord", rd-2, "skip", 0, "slo", 0, "shi", 16), TimeoutS: 900})
+						if rd == 2 {
+							// summaries that cannot drive an indexed read: Messages() seeks back and scans
+							js = append(js, &Job{Module: "mcap", Harness: "VC15Seek", Params: P("tpl", f.tpl, "cfg", f.cfg, "cs", f.cs, "ord", 0, "skip", 64, "slo", 0, "shi", 16), TimeoutS: 900})
+							js = append(js, &Job{Module: "mcap", Harness: "VC15Seek", Params: P("tpl", f.tpl, "cfg", f.cfg&^1, "cs", f.cs, "ord", 0, "skip", 0, "slo", 0, "shi", 16), TimeoutS: 900})
+						}
 					}
 					if tier == "quick" {
 						errj(f.tpl, f.cfg, f.cs, f.validate, rd, rd%2, 512)
@@ -521,7 +526,7 @@ func init() {
 			return js
 		},
 		bounds: map[string]any{
-			"quick":    map[string]any{"file": "T5 chunked (one chunk per message, CRC on), validating lexer", "readers": "lexer; non-indexed iterator; indexed iterator in file order and in log-time order", "fragmentation": "one short read at symbolic read-call index J (0..95, cells of 8; beyond the last call the run is the plain one) returning symbolic K bytes (1..9: every split of a 9-byte record header); every read limited to 1, 2, 5 bytes; final bytes delivered together with io.EOF", "io_error": "error at symbolic byte position E (cells of 16 over the whole file), delivered on its own call or together with the last good bytes: sticky for the sequential readers; for index-based reads byte E alone is unreadable (reads that do not touch it succeed, and a read that never needs it must return everything); for index-based reads also a failure of the Seek call with symbolic index S in 0..15 (more Seek calls than the reads make)", "symbolic": "J, K, E, every field value and byte of the file"},
+			"quick":    map[string]any{"file": "T5 chunked (one chunk per message, CRC on), validating lexer", "readers": "lexer; non-indexed iterator; indexed iterator in file order and in log-time order", "fragmentation": "one short read at symbolic read-call index J (0..95, cells of 8; beyond the last call the run is the plain one) returning symbolic K bytes (1..9: every split of a 9-byte record header); every read limited to 1, 2, 5 bytes; final bytes delivered together with io.EOF", "io_error": "error at symbolic byte position E (cells of 16 over the whole file), delivered on its own call or together with the last good bytes: sticky for the sequential readers; for index-based reads byte E alone is unreadable (reads that do not touch it succeed, and a read that never needs it must return everything); for Messages() with the index (and on files without chunk indexes / without chunks, where it seeks back and scans) also a failure of the Seek call with symbolic index S in 0..15 (more Seek calls than the reads make)", "symbolic": "J, K, E, every field value and byte of the file"},
 			"thorough": map[string]any{"files": "T1,T5,T6,T7 under 7 option sets (incl. xor codec, unchunked, non-validating)", "readers": "as quick + reverse log-time order", "fragmentation": "J over 0..159", "io_error": "both delivery forms at every position"},
 		},
 		outside:     append([]string{"a one-shot (non-sticky) error delivered together with the last bytes a ReadFull needs: io.ReadAtLeast drops it by specification", "more than one short read per run (the every-read-limited schedules cover repeated fragmentation)"}, outsideCommon...),
